@@ -14,7 +14,7 @@ RVC = "ppci/arch/riscv/rvc_relocations.py"
 
 
 def run(ctx):
-    ctx.rule("C13.R1", "_apply_relaxation_holes adjusts symbols, relocations, section data and image section addresses, all from the same hole map", floor=4)
+    ctx.rule("C13.R1", "_apply_relaxation_holes adjusts symbols, relocations, section data and image section addresses, all from the same hole map", floor=6)
     ctx.rule("C13.R2", "holes before a position are counted the same way for symbols and relocations; holes are sorted; data is removed back to front", floor=5)
     ctx.rule("C13.R3", "can_shrink/do_shrink come in pairs; the shrink range equals the gate of the new relocation; the new relocation is registered", floor=8)
     ctx.rule("C13.R4", "do_relaxations replaces the old relocation by the new one at the same symbol/section/offset/addend and records the hole after the shortened instruction", floor=6)
@@ -39,31 +39,64 @@ def run(ctx):
                 [norm(a) for a in delta[0].args] == [field, "holes"] and bool(sub) and norm(sub[0].value) == "delta"
             detail = "%s / %s / %s" % ([norm(h) for h in holes], [norm(d) for d in delta], [norm(s) for s in sub])
         ctx.ob("C13.R1", site, "every %s position is lowered by the holes of its own section that lie before it" % what[:-1], ok, construct="adjust:" + what, detail=detail)
-    ls = loop_over("sections")
-    ls = [l for l in ls if "images" not in attrs_in(l.iter)]
-    ok = False
-    if ls:
-        l = ls[0]
-        holes = [v for v in assigned_values(l, "holes")]
-        pops = [c for c in calls_in(l, "pop")]
-        inner = [n for n in walk_no_nested(l) if isinstance(n, ast.For) and n is not l]
-        rev = any(isinstance(n.iter, ast.Call) and call_name(n.iter) == "reversed" and norm(n.iter.args[0]) == "holes" for n in inner)
-        cnt = any(isinstance(n.iter, ast.Call) and call_name(n.iter) == "range" and norm(n.iter.args[0]) == "hole_size" for n in inner)
-        ok = bool(holes) and norm(holes[0]) == "%s[section.name]" % hm and bool(pops) and norm(pops[0]) == "section.data.pop(hole_offset)" and cnt
-        ctx.ob("C13.R2", site, "holes are cut out of the data from the last to the first (earlier offsets stay valid)", rev, construct="reverse-removal")
-    ctx.ob("C13.R1", site, "hole_size bytes are removed from the section data at every hole offset", ok, construct="adjust:data")
+    # section data: for every section with holes, hole_size bytes are cut at hole_offset, last hole first
+    cuts = []
+    for l in loops:
+        if "images" in attrs_in(l.iter):
+            continue
+        for n in ast.walk(l):
+            if isinstance(n, ast.Call) and last_name(n) == "pop" and norm(n.func.value).endswith(".data"):
+                cuts.append((l, n, "pop"))
+            elif isinstance(n, ast.Delete) and isinstance(n.targets[0], ast.Subscript) and norm(n.targets[0].value).endswith(".data"):
+                cuts.append((l, n, "del"))
+    ok = rev = False
+    detail = ""
+    if len(cuts) == 1:
+        l, n, kind = cuts[0]
+        env = sym.single_assign_env(l)
+        inner = [x for x in ast.walk(l) if isinstance(x, ast.For) and x is not l and any(y is n for y in ast.walk(x))]
+        # the loop that walks the holes of the section
+        hl = [x for x in inner if isinstance(x.target, ast.Tuple) and len(x.target.elts) == 2]
+        if hl:
+            off, size = (norm(e) for e in hl[0].target.elts)
+            it = hl[0].iter
+            rev = isinstance(it, ast.Call) and call_name(it) == "reversed"
+            src = it.args[0] if rev and it.args else it
+            # holes come from the hole map, keyed by the name of the very section whose data is cut
+            secvar = norm(n.func.value)[: -len(".data")] if kind == "pop" else norm(n.targets[0].value)[: -len(".data")]
+            holes_src = norm(sym.deep_inline(src, env))
+            if isinstance(l.target, ast.Tuple) and norm(l.iter) == hm + ".items()":
+                namevar, holesvar = (norm(e) for e in l.target.elts)
+                sec_src = norm(sym.deep_inline(ast.parse(secvar, mode="eval").body, env))
+                keyed = holes_src == holesvar and sec_src in ("self.dst.get_section(%s)" % namevar, "self.dst.section_map[%s]" % namevar)
+            else:
+                keyed = holes_src == "%s[%s.name]" % (hm, secvar) and norm(l.target) == secvar and "sections" in attrs_in(l.iter)
+            if kind == "pop":
+                cnt = [x for x in inner if isinstance(x.iter, ast.Call) and call_name(x.iter) == "range" and len(x.iter.args) == 1 and norm(x.iter.args[0]) == size]
+                amount = bool(cnt) and norm(n.args[0]) == off
+            else:
+                sl = n.targets[0].slice
+                amount = isinstance(sl, ast.Slice) and sl.lower is not None and sl.upper is not None and norm(sl.lower) == off and norm(sl.upper) in ("%s + %s" % (off, size), "%s + %s" % (size, off))
+            ok = keyed and amount
+            detail = "holes from %s; cut %s" % (holes_src, " ".join(norm(n).split()))
+    ctx.ob("C13.R2", site, "holes are cut out of the data from the last to the first (earlier offsets stay valid)", rev, construct="reverse-removal")
+    ctx.ob("C13.R1", site, "hole_size bytes are removed from the data of the section the holes belong to, at every hole offset", ok, construct="adjust:data", detail=detail)
     ls = loop_over("images")
-    ok = False
+    ok = every = False
     if ls:
         l = ls[0]
         inner = [n for n in walk_no_nested(l) if isinstance(n, ast.For) and n is not l]
         if inner:
             body = inner[0].body
-            subs = [i for i, st in enumerate(body) if isinstance(st, ast.AugAssign) and norm(st.target) == "section.address" and isinstance(st.op, ast.Sub) and norm(st.value) == "delta"]
-            adds = [i for i, st in enumerate(body) if isinstance(st, ast.AugAssign) and norm(st.target) == "delta" and isinstance(st.op, ast.Add) and norm(st.value) == "section_changes[section.name]"]
+            sv = norm(inner[0].target)
+            subs = [i for i, st in enumerate(body) if isinstance(st, ast.AugAssign) and norm(st.target) == sv + ".address" and isinstance(st.op, ast.Sub) and norm(st.value) == "delta"]
+            adds = [i for i, st in enumerate(body) if isinstance(st, ast.AugAssign) and norm(st.target) == "delta" and isinstance(st.op, ast.Add)
+                    and norm(st.value) in ("section_changes[%s.name]" % sv, "section_changes.get(%s.name, 0)" % sv)]
             init = any(isinstance(st, ast.Assign) and norm(st) == "delta = 0" for st in l.body)
             ok = bool(subs) and bool(adds) and subs[0] < adds[0] and init and norm(inner[0].iter) == "image.sections"
+            every = ok and not any(isinstance(x, (ast.Continue, ast.Break, ast.Return)) for x in ast.walk(inner[0]))
     ctx.ob("C13.R1", site, "within an image each section moves down by the bytes removed from the sections before it (address lowered first, then its own shrinkage accumulated)", ok, construct="adjust:addresses")
+    ctx.ob("C13.R1", site, "no section of the image is skipped: a section without holes of its own still moves with the sections before it", every, construct="adjust:every-section")
     sc = [v for v in assigned_values(ah, "section_changes")]
     ok = bool(sc) and isinstance(sc[0], ast.DictComp) and norm(sc[0].value) in ("sum((h[1] for h in holes))", "sum(h[1] for h in holes)") and norm(sc[0].generators[0].iter) == hm + ".items()"
     ctx.ob("C13.R1", site, "the shrinkage of a section is the sum of its hole sizes, from the same hole map", ok, construct="section-changes", detail=norm(sc[0]) if sc else "")
